@@ -268,8 +268,11 @@ class Interp:
         self.wraps = []          # (marker name, inner + offset) per unwrap, in mark mode
         self.vfs = None          # virtual file system: path -> VFile
         self.thin = False
+        self.yield_stack = []
+        self.class_attrs = {}    # (class name, attribute) -> value stored at run time on a class object
         self.ph_of = {}          # poly key -> placeholder token
         self.ph_val = {}         # placeholder token -> Poly
+        self.int_tokens = set()  # keys of Polys that stand for (arbitrarily large) integer ids
 
     # ------------------------------------------------------------------------------------ helpers
     def where(self, node):
@@ -417,13 +420,19 @@ class Interp:
         if self.depth > self.MAX_DEPTH:
             raise Unsupported("recursion too deep in %s" % fn_label(fn))
         self.fn_stack.append(fn)
+        is_gen = _is_generator(fn)
+        if is_gen:
+            self.yield_stack.append([])
         try:
             try:
                 self.block(fn.body, env)
             except _Return as r:
-                return r.value
-            return None
+                if not is_gen:
+                    return r.value
+            return self.yield_stack[-1] if is_gen else None
         finally:
+            if is_gen:
+                self.yield_stack.pop()
             self.fn_stack.pop()
             self.depth -= 1
 
@@ -562,6 +571,10 @@ class Interp:
             base = self.ev(t.value, env)
             if isinstance(base, Obj):
                 base.fields[t.attr] = v
+            elif isinstance(base, ClassRef):
+                self.class_attrs[(base.name, t.attr)] = v
+            elif isinstance(base, Arr):
+                base.__dict__.setdefault("attrs", {})[t.attr] = v
             else:
                 raise self.unsupported("attribute store on %r" % (base,), t)
         elif isinstance(t, ast.Subscript):
@@ -599,20 +612,26 @@ class Interp:
             return
         if not isinstance(base, Arr):
             raise self.unsupported("subscript store on %r" % (base,), node)
+        if isinstance(sl, ast.Constant) and sl.value is Ellipsis:
+            new = self.to_arr(v, node) if not isinstance(v, Arr) else v
+            if new.shape != base.shape:
+                raise PathRaise("ValueError(could not broadcast)", self.where(node))
+            base.data[:] = [list(r) for r in new.data] if base.ndim == 2 else list(new.data)
+            return
         if getattr(base, "is_view", False):
             raise self.unsupported("store through a slice view", node)
         idx = self.ev_index(sl, env)
         if isinstance(idx, IndexSet):
             vals = self.flat_values(v, len(idx.pairs), node)
             for (i, j), x in zip(idx.pairs, vals):
-                base.data[i][j] = as_poly(x)
+                base.data[i][j] = _elem(x)
             return
         if base.ndim == 1:
             if isinstance(idx, slice):
                 n = len(base.data[idx])
-                base.data[idx] = [x if isinstance(x, Quot) else as_poly(x) for x in self.flat_values(v, n, node)]
+                base.data[idx] = [_elem(x) for x in self.flat_values(v, n, node)]
             else:
-                base.data[idx] = as_poly(self.scalar(v, node))
+                base.data[idx] = _elem(self.scalar(v, node))
             return
         # 2-D
         if not isinstance(idx, tuple):
@@ -632,16 +651,16 @@ class Interp:
         k = 0
         for r in rows:
             for c in cols:
-                base.data[r][c] = as_poly(vals[k])
+                base.data[r][c] = _elem(vals[k])
                 k += 1
 
     def flat_values(self, v, n, node):
         if isinstance(v, Arr):
             vals = v.flat()
         elif isinstance(v, (list, tuple)):
-            vals = [self.scalar(x, node) for x in v]
+            vals = [x if isinstance(x, Quot) else self.scalar(x, node) for x in v]
         else:
-            vals = [self.scalar(v, node)] * n
+            vals = [v if isinstance(v, Quot) else self.scalar(v, node)] * n
         if len(vals) != n:
             raise self.unsupported("store of %d values into %d slots" % (len(vals), n), node)
         return vals
@@ -693,6 +712,21 @@ class Interp:
         if m is None:
             raise self.unsupported("expression %s" % type(n).__name__, n)
         return m(n, env)
+
+    def ev_Yield(self, n, env):
+        if not self.yield_stack:
+            raise self.unsupported("yield outside a generator", n)
+        self.yield_stack[-1].append(self.ev(n.value, env) if n.value is not None else None)
+        return None
+
+    def ev_YieldFrom(self, n, env):
+        if not self.yield_stack:
+            raise self.unsupported("yield outside a generator", n)
+        self.yield_stack[-1].extend(self.iterate(self.ev(n.value, env), n))
+        return None
+
+    def ev__Lit(self, n, env):
+        return n.value
 
     def ev_Constant(self, n, env):
         v = n.value
@@ -888,6 +922,8 @@ class Interp:
             return all(self.equal(a, b, node) for a, b in zip(l, r))
         if isinstance(l, ClassRef) and isinstance(r, ClassRef):
             return l.name == r.name
+        if isinstance(l, (set, frozenset)) and isinstance(r, (set, frozenset)):
+            return set(l) == set(r)
         if isinstance(l, str) and isinstance(r, str):
             return l == r
         if l is None or r is None:
@@ -1030,6 +1066,8 @@ class Interp:
 
     # ------------------------------------------------------------------------------------ subscripts
     def ev_index(self, sl, env):
+        if isinstance(sl, ast.Constant) and sl.value is Ellipsis:
+            return slice(None)
         if isinstance(sl, ast.Tuple):
             return tuple(self.ev_index(e, env) for e in sl.elts)
         if isinstance(sl, ast.Slice):
@@ -1051,6 +1089,10 @@ class Interp:
     def intval(self, v, node=None):
         if isinstance(v, Poly):
             c = v.const_value()
+            if c is None and self.thin:
+                sub, _ = self.equalities()
+                if sub:
+                    c = v.subs(sub).const_value()
             if c is not None and int(c) == c:
                 return int(c)
         raise self.unsupported("non-constant index %r" % (v,), node)
@@ -1154,6 +1196,11 @@ class Interp:
             if v.kind == "logger":
                 return Opaque("logmeth", a)
             raise self.unsupported("attribute %s of %r" % (a, v), n)
+        if isinstance(v, (Pose, Obj)) and not (isinstance(v, Obj) and (a in v.fields or a in v.stubs)) and \
+                not (isinstance(v, Arr) and a in v.__dict__.get("attrs", {})):
+            for c_ in (self.pkg.mro(v.cls) if v.cls in self.pkg.classes else []):
+                if (c_, a) in self.class_attrs:
+                    return self.class_attrs[(c_, a)]
         if isinstance(v, Pose):
             k = self.pkg.lookup(v.cls, a)
             if k is not None:
@@ -1162,6 +1209,8 @@ class Interp:
                 if k[0] == "const":
                     return self.ev(k[1], {})
                 return Opaque("bound", v, a)
+        if isinstance(v, Arr) and a in v.__dict__.get("attrs", {}):
+            return v.__dict__["attrs"][a]
         if isinstance(v, Arr):
             if a == "T":
                 return v.T()
@@ -1173,8 +1222,11 @@ class Interp:
                 return Poly.const(len(v.flat()))
             if a in ARR_METHODS:
                 return Opaque("arrmeth", v, a)
-            raise self.unsupported("ndarray attribute %s" % a, n)
+            raise PathRaise("AttributeError(ndarray.%s)" % a, self.where(n))
         if isinstance(v, ClassRef):
+            for c_ in (self.pkg.mro(v.name) if v.name in self.pkg.classes else [v.name]):
+                if (c_, a) in self.class_attrs:
+                    return self.class_attrs[(c_, a)]
             if v.name in self.pkg.classes:
                 k = self.pkg.lookup(v.name, a)
                 if k is not None:
@@ -1210,7 +1262,7 @@ class Interp:
             return Opaque("vfile", v, a)
         if isinstance(v, BoolArr) and a in ("all", "any"):
             return Opaque("callable", (lambda v=v, a=a: all(v.flat) if a == "all" else any(v.flat)))
-        if isinstance(v, (list, dict, str, tuple)):
+        if isinstance(v, (list, dict, str, tuple, set, frozenset)):
             return Opaque("pymeth", v, a)
         if v is None:
             raise PathRaise("AttributeError(None.%s)" % a, self.where(n))
@@ -1414,6 +1466,23 @@ class Interp:
                 return None
             if name == "copy":
                 return list(v)
+        if isinstance(v, (set, frozenset)):
+            if name == "add" and isinstance(v, set):
+                v.add(self.hashable(args[0], n))
+                return None
+            if name == "discard" and isinstance(v, set):
+                v.discard(self.hashable(args[0], n))
+                return None
+            if name == "update" and isinstance(v, set):
+                for x in self.iterate(args[0], n):
+                    v.add(self.hashable(x, n))
+                return None
+            if name in ("union", "copy"):
+                r = set(v)
+                for a_ in args:
+                    for x in self.iterate(a_, n):
+                        r.add(self.hashable(x, n))
+                return r
         if isinstance(v, dict):
             if name == "items":
                 return [(self.unhash(k), x) for k, x in v.items()]
@@ -1498,11 +1567,12 @@ class Interp:
         return "".join(out)
 
     def parse_number(self, tok, n, integer):
-        if tok in self.ph_val:
-            return self.ph_val[tok]
         t = tok.strip()
         if t in self.ph_val:
-            return self.ph_val[t]
+            v = self.ph_val[t]
+            if not integer and v.key() in self.int_tokens:
+                self.events.append(("integer-through-float", self.where(n)))
+            return v
         if "\x01" in tok:
             raise PathRaise("ValueError(could not convert %r)" % tok, self.where(n))
         try:
@@ -1584,7 +1654,8 @@ class Interp:
             return list(reversed(self.iterate(args[0], n)))
         if name in ("set", "frozenset"):
             seq = self.iterate(args[0], n) if args else []
-            return frozenset(self.hashable(x, n) for x in seq)
+            r = set(self.hashable(x, n) for x in seq)
+            return r if name == "set" else frozenset(r)
         if name == "dict":
             if args or kw:
                 raise self.unsupported("dict() with arguments", n)
@@ -1596,6 +1667,49 @@ class Interp:
             if isinstance(args[0], str):
                 return self.parse_number(args[0], n, integer=False)
             return self.scalar(args[0], n)
+        if name in ("getattr", "hasattr"):
+            obj, attr = args[0], args[1]
+            if not isinstance(attr, str):
+                raise self.unsupported("%s with a non-literal attribute name" % name, n)
+            try:
+                val = self.ev_Attribute(ast.Attribute(value=_Lit(obj), attr=attr, ctx=ast.Load(), lineno=getattr(n, "lineno", 0)), env)
+                found = True
+            except PathRaise as e:
+                if "AttributeError" not in e.exc:
+                    raise
+                found, val = False, None
+            except Unsupported:
+                if isinstance(obj, (Pose, Arr)):
+                    found, val = False, None
+                else:
+                    raise
+            if name == "hasattr":
+                return found
+            if found:
+                return val
+            if len(args) > 2:
+                return args[2]
+            raise PathRaise("AttributeError(%s)" % attr, self.where(n))
+        if name == "setattr":
+            obj, attr, val = args
+            if isinstance(obj, Obj):
+                obj.fields[attr] = val
+            elif isinstance(obj, Arr):
+                obj.__dict__.setdefault("attrs", {})[attr] = val
+            else:
+                raise self.unsupported("setattr on %r" % (obj,), n)
+            return None
+        if name == "next":
+            seq = self.iterate(args[0], n)
+            if seq:
+                return seq[0]
+            if len(args) > 1:
+                return args[1]
+            raise PathRaise("StopIteration", self.where(n))
+        if name == "iter":
+            return self.iterate(args[0], n)
+        if name == "id":
+            return Poly.var("pyid#%d" % id(args[0]))
         if name == "abs":
             return self.absval(args[0], n)
         if name == "bool":
@@ -1663,7 +1777,7 @@ class Interp:
         for x in out:
             if not any(self.equal(x, y, n) for y in res):
                 res.append(x)
-        return frozenset(self.hashable(x, n) for x in res)
+        return set(self.hashable(x, n) for x in res)
 
     def ev_DictComp(self, n, env):
         out = {}
@@ -1698,6 +1812,8 @@ class Interp:
         raise LossyOperation("array constructed with a non-float64 dtype", self.where(n))
 
     def to_arr(self, v, node):
+        if isinstance(v, (list, tuple)) and v and all(isinstance(x, str) for x in v):
+            return Arr([self.parse_number(x, node, integer=False) for x in v], 1)
         if isinstance(v, Arr):
             return Arr([list(r) for r in v.data], 2) if v.ndim == 2 else Arr(list(v.data), 1)
         if isinstance(v, (list, tuple)):
@@ -1950,7 +2066,17 @@ class Interp:
                     fb = fb * len(fa)
                 else:
                     raise PathRaise("ValueError(shapes)", self.where(n))
-            res = [self.decide_sign(x - y, {0}, "%s is close to 0" % (x - y).short(40)) for x, y in zip(fa, fb)]
+            rtol = self.scalar(kw.get("rtol", Poly.const(1e-05)), n)
+            atol = self.scalar(kw.get("atol", Poly.const(1e-08)), n)
+            res = []
+            for x, y in zip(fa, fb):
+                d = x - y
+                if d.is_zero():
+                    res.append(True)
+                    continue
+                T = atol + rtol * self.absval(y, n)      # |x - y| <= atol + rtol * |y|
+                res.append(self.decide_sign(d - T, {-1, 0}, "%s <= tolerance" % d.short(40)) and
+                           self.decide_sign(d + T, {0, 1}, "%s >= -tolerance" % d.short(40)))
             if name == "allclose":
                 return all(res)
             return BoolArr(res, (len(res),)) if isinstance(a, Arr) or isinstance(b, Arr) else res[0]
@@ -1993,6 +2119,15 @@ class Interp:
         if isinstance(v, (list, tuple)):
             return self.to_arr(v, n)
         return v
+
+
+class _Lit(ast.AST):
+    """AST node that evaluates to an already computed value."""
+    _fields = ()
+
+    def __init__(self, value):
+        self.value = value
+        self.lineno = 0
 
 
 class SuperRef:
@@ -2046,6 +2181,28 @@ def _ev_call_with_super(self, n, env):
 Interp.ev_Call = _ev_call_with_super
 
 
+_GEN_CACHE = {}
+
+
+def _is_generator(fn):
+    k = id(fn)
+    if k not in _GEN_CACHE:
+        found = False
+        todo = list(fn.body)
+        while todo and not found:
+            x = todo.pop()
+            if isinstance(x, (ast.Yield, ast.YieldFrom)):
+                found = True
+            elif not isinstance(x, (ast.FunctionDef, ast.Lambda, ast.ClassDef)):
+                todo.extend(ast.iter_child_nodes(x))
+        _GEN_CACHE[k] = found
+    return _GEN_CACHE[k]
+
+
+def _elem(x):
+    return x if isinstance(x, Quot) else as_poly(x)
+
+
 def _dotp(r, c):
     acc = Poly()
     for x, y in zip(r, c):
@@ -2056,7 +2213,7 @@ def _dotp(r, c):
 
 OPNAME = {ast.Lt: "<", ast.LtE: "<=", ast.Gt: ">", ast.GtE: ">=", ast.Eq: "==", ast.NotEq: "!="}
 ARR_METHODS = {"tocsr", "tocsc", "tolil", "todense", "toarray", "tocoo", "any", "view", "copy", "dot", "transpose", "flatten", "ravel", "tolist", "astype", "reshape", "sum", "round"}
-BUILTIN_NAMES = {"abs", "bool", "open", "str", "repr", "set", "frozenset", "dict", "isinstance", "issubclass", "type", "len", "range", "zip", "enumerate", "reversed", "list", "tuple",
+BUILTIN_NAMES = {"getattr", "hasattr", "setattr", "next", "iter", "id", "abs", "bool", "open", "str", "repr", "set", "frozenset", "dict", "isinstance", "issubclass", "type", "len", "range", "zip", "enumerate", "reversed", "list", "tuple",
                  "all", "any", "sum", "max", "min", "super", "print", "round", "int", "abs", "NotImplementedError"}
 
 
@@ -2066,7 +2223,7 @@ class PathResult:
         self.conds, self.value, self.raised, self.events, self.wrap_uses, self.thin = conds, value, raised, events or [], wrap_uses, thin
 
 
-def explore(pkg, run, hook=None, max_paths=64):
+def explore(pkg, run, hook=None, max_paths=256):
     """Enumerate all paths of `run(interp)` (trace partitioning by re-interpretation with a decision script)."""
     results = []
     stack = [[]]
